@@ -124,7 +124,7 @@ def data_item(sim, fe, it, r, idx):
 # ---- Interest side ------------------------------------------------------------------------------------------------
 def _build_interest(name, it):
     kind, dg = it['ikind'], it['digest']
-    app = b'params' if kind in ('params', 'params+sig') else None
+    app = (b'' if it.get('empty_params') else b'params') if kind in ('params', 'params+sig') else None
     sig_info = None
     if kind in ('params+sig', 'sig'):
         sig_info = T.enc_tlv(0x1b, bytes([it.get('sigtype', 0)]))
@@ -135,7 +135,11 @@ def _build_interest(name, it):
                           bad_digest=(dg == 'digest-flipped'), no_digest=(dg == 'missing'))
     if dg == 'param-flipped':
         # flip one byte inside ApplicationParameters / SignatureInfo region (after the digest was computed)
-        target = b'params' if app is not None else sig_info
+        target = (b'params' if app else None) or sig_info
+        if target is None:
+            # empty parameters and no signature: corrupt the (empty) ApplicationParameters element by making it non-empty
+            i = w.rindex(b'\x24\x00')
+            return w[:1] + bytes([w[1] + 1]) + w[2:i] + b'\x24\x01\x00' + w[i + 2:]
         i = w.rindex(target)
         w = w[:i] + bytes([w[i] ^ 0x01]) + w[i + 1:]
     return w
@@ -240,6 +244,36 @@ def interest_item(sim, fe, it, r, idx):
     return (fe, 'interest', kind, dg, repr(rv), repr(app_v), sigtype, bool(it.get('sigbad'))) if nontriv else ()
 
 
+def pair_item(sim, fe, it, r, idx):
+    """Two Interests pending on the SAME name with different validators (verdict / latency); one Data answers both."""
+    name = [net.comp('p'), net.comp(str(idx))]
+    wire = net.data_wire(name, content=b'pair%d' % idx, freshness=1000)
+    hs = []
+    for sub in it['subs']:
+        hs.append(sim.express(name, lifetime=LIFE, vlat=lat_s(sub['lat']), verdict=_verdict_obj(fe, sub['verdict']),
+                              can_be_prefix=sub.get('cbp', False)))
+    t_data = sim.vl.now_ms()
+    sim.deliver(wire, 'task')
+    sim.vl.advance(0.2)
+    for sub, h in zip(it['subs'], hs):
+        out = h.outcome
+        label = 'none' if out is None else ('data' if out[0] == 'data' else out[1])
+        acc = _accepting(fe, sub['verdict'])
+        vdone = t_data + int(lat_s(sub['lat']) * 1000)
+        deadline = h.t0_ms + LIFE
+        if fe == 'v2':
+            allowed = {'data' if acc else 'ValidationFailure'} if vdone < deadline - 1 else \
+                {'InterestTimeout'} if vdone > deadline + 1 else {'data' if acc else 'ValidationFailure', 'InterestTimeout'}
+        else:
+            allowed = {'data' if acc else 'ValidationFailure'} | ({'InterestTimeout'} if vdone >= deadline - 1 else set())
+        if label == 'data' and (not acc or not h.validator_calls or h.validator_calls[0][1] is None):
+            r.bad(f'C05/{fe}/pair/returned-without-own-validator-accepting/{sub["verdict"]!r}',
+                  f'own validator calls {h.validator_calls}; siblings {[x["verdict"] for x in it["subs"]]}')
+        elif label not in allowed:
+            r.bad(f'C05/{fe}/pair/outcome/{label}/expected={"|".join(sorted(allowed))}', f'{sub} among {it["subs"]}')
+    return (fe, 'pair', tuple((repr(x['verdict']), x['lat']) for x in it['subs']))
+
+
 def run_case(case):
     r = Result()
     fe = case['frontend']
@@ -249,7 +283,8 @@ def run_case(case):
     classes = [fe]
     try:
         for idx, it in enumerate(case['items']):
-            k = data_item(sim, fe, it, r, idx) if it['side'] == 'data' else interest_item(sim, fe, it, r, idx)
+            k = data_item(sim, fe, it, r, idx) if it['side'] == 'data' else \
+                pair_item(sim, fe, it, r, idx) if it['side'] == 'pair' else interest_item(sim, fe, it, r, idx)
             classes.append(it['side'])
             if k:
                 keys.append(k)
@@ -271,11 +306,17 @@ def _grid_items(fe):
         yield {'side': 'data', 'validator': 'supplied', 'verdict': v, 'lat': lat, 'dsig': dsig}
     for dsig in ['none', 'digest', 'bad']:
         yield {'side': 'data', 'validator': 'none', 'verdict': None, 'lat': '0', 'dsig': dsig}
+    for v1, v2 in itertools.product(verdicts, verdicts):
+        if v1 != v2:
+            for l1, l2 in (('0', '0'), ('0', '1ms'), ('1ms', '0'), ('0', 'life+20')):
+                yield {'side': 'pair', 'subs': [{'verdict': v1, 'lat': l1}, {'verdict': v2, 'lat': l2, 'cbp': True}]}
     rvs = ['absent'] + list(verdicts) + [['slow', verdicts[0]], ['slow', 'PASS' if fe == 'v2' else True]]
     for kind in ['plain', 'params', 'params+sig', 'sig']:
         digs = ['correct'] if kind == 'plain' else ['correct', 'digest-flipped', 'param-flipped', 'missing']
         for dg, rv in itertools.product(digs, rvs):
             base = {'side': 'interest', 'ikind': kind, 'digest': dg, 'route_validator': rv}
+            if kind in ('params', 'params+sig') and rv in ('absent', verdicts[0], 'PASS', True):
+                yield dict(base, empty_params=True)
             if fe == 'v2' or kind in ('plain', 'params') or rv != 'absent':
                 yield base
             else:
